@@ -399,4 +399,121 @@ def IsHalfGradient (s : Sys) (Q : (Nat → Rat) → Rat) : Prop :=
   ∀ x t : Nat → Rat,
     Q (fun i => x i + t i) = Q x + 2 * (bilin s.mat x t - lin s.rhs t) + bilin s.mat t t
 
+/-! ### The documented quadratics of the re-weighted net models (weights frozen at `pl`)
+
+Every re-weighted model connects pins by springs `w · (a − b)²` whose stiffness is the net weight
+divided by `max ε |distance in the current placement pl|` (the linearisation of the half-perimeter
+wirelength around `pl`).  The quadratics below are stated with those stiffnesses *frozen*: `pl`
+and `ε` are parameters, the unknowns `x` only enter through `pinVal x`. -/
+
+/-- `Σ_k f (i + k) p_k` over a pin list (the statement-side twin of `loopIdx`). -/
+def sumIdx (f : Nat → Pin → Rat) : Nat → List Pin → Rat
+  | _, [] => 0
+  | i, p :: ps => f i p + sumIdx f (i + 1) ps
+
+/-- Clique, pin `pi` against the later pins: `Σ_j (w / max ε |pi(pl) − pj(pl)|) (pi − pj)²`. -/
+def cliqueInnerQ (pl : List Rat) (ε w : Rat) (x : Nat → Rat) (pi : Pin) : List Pin → Rat
+  | [] => 0
+  | pj :: ps => (w / rmax ε (rabs (pinPos pl pi - pinPos pl pj))) * sq (pinVal x pi - pinVal x pj)
+      + cliqueInnerQ pl ε w x pi ps
+
+/-- Clique: all pairs `i < j`. -/
+def cliqueGoQ (pl : List Rat) (ε w : Rat) (x : Nat → Rat) : List Pin → Rat
+  | [] => 0
+  | p :: ps => cliqueInnerQ pl ε w x p ps + cliqueGoQ pl ε w x ps
+
+/-- **Clique model** of one net: `Σ_{i<j} (2W / (nb (nb−1)) / max ε |p_i(pl) − p_j(pl)|) (p_i − p_j)²`. -/
+def cliqueQ (pl : List Rat) (ε : Rat) (x : Nat → Rat) (n : Net) : Rat :=
+  cliqueGoQ pl ε (cliqueW n) x n.pins
+
+/-- B2B, contribution of pin `i`: nothing for the minimum pin; otherwise a spring to the minimum
+pin and — unless `i` is the maximum pin — a spring to the maximum pin. -/
+def b2bTermQ (pl : List Rat) (ε w : Rat) (mn mx : Ext) (x : Nat → Rat) (i : Nat) (p : Pin) : Rat :=
+  if i = mn.i then 0
+  else (w / rmax ε (rabs (pinPos pl p - mn.pos))) * sq (pinVal x p - pinVal x (mn.c, mn.o))
+    + (if i = mx.i then 0
+       else (w / rmax ε (rabs (pinPos pl p - mx.pos))) * sq (pinVal x p - pinVal x (mx.c, mx.o)))
+
+/-- **Bound-to-bound model** of one net: every pin is tied to the two extreme pins of the net in
+`pl` with stiffness `W / (nb−1) / max ε |distance|`.  When all pins coincide in `pl` the minimum
+and the maximum pin are the *same* pin (the first one), and every other pin is tied to it twice. -/
+def b2bQ (pl : List Rat) (ε : Rat) (x : Nat → Rat) (n : Net) : Rat :=
+  sumIdx (b2bTermQ pl ε (b2bW n) (minPin pl n.pins) (maxPin pl n.pins) x) 0 n.pins
+
+/-- Star, contribution of pin `i` (`sc` = the net's auxiliary unknown, at `starPos` in `pl`):
+an extreme pin is tied to the star point itself; an interior pin to the star point *shifted by its
+current distance to it* (so that it exerts no force at `pl`), with stiffness
+`W / max ε (distance to the nearer extreme)`. -/
+def starTermQ (pl : List Rat) (ε wt : Rat) (mn mx : Ext) (sc : Nat) (x : Nat → Rat) (i : Nat) (p : Pin) : Rat :=
+  if i = mn.i ∨ i = mx.i then
+    (wt / rmax ε (rabs (pinPos pl p - starPos mn mx))) * sq (pinVal x p - x sc)
+  else
+    (wt / rmax ε (rmin (mx.pos - pinPos pl p) (pinPos pl p - mn.pos)))
+      * sq (pinVal x p - (x sc + (pinPos pl p - starPos mn mx)))
+
+/-- Light star: as the star, interior pins with the stiffness of the two B2B springs
+`W/(nb−1)/max ε (max − p) + W/(nb−1)/max ε (p − min)`. -/
+def lightStarTermQ (pl : List Rat) (ε wt wb : Rat) (mn mx : Ext) (sc : Nat) (x : Nat → Rat) (i : Nat) (p : Pin) : Rat :=
+  if i = mn.i ∨ i = mx.i then
+    (wt / rmax ε (rabs (pinPos pl p - starPos mn mx))) * sq (pinVal x p - x sc)
+  else
+    (wb / rmax ε (mx.pos - pinPos pl p) + wb / rmax ε (pinPos pl p - mn.pos))
+      * sq (pinVal x p - (x sc + (pinPos pl p - starPos mn mx)))
+
+/-- **Star model** of one net (`sv` = index of its auxiliary unknown when it has more than two pins). -/
+def starNetQ (pl : List Rat) (ε : Rat) (x : Nat → Rat) (sv : Nat) (n : Net) : Rat :=
+  if n.pins.length ≤ 2 then bipTerm pl ε x n
+  else sumIdx (starTermQ pl ε n.weight (minPin pl n.pins) (maxPin pl n.pins) sv x) 0 n.pins
+
+/-- **Light-star model** of one net. -/
+def lightStarNetQ (pl : List Rat) (ε : Rat) (x : Nat → Rat) (sv : Nat) (n : Net) : Rat :=
+  if n.pins.length ≤ 2 then bipTerm pl ε x n
+  else sumIdx (lightStarTermQ pl ε n.weight (b2bW n) (minPin pl n.pins) (maxPin pl n.pins) sv x) 0 n.pins
+
+/-- The documented quadratic of one net in each of the five assembly variants. -/
+def netQ (m : Mode) (pl : List Rat) (ε : Rat) (x : Nat → Rat) (sv : Nat) (n : Net) : Rat :=
+  match m with
+  | .star0 => netQ0 x sv n
+  | .b2b => b2bQ pl ε x n
+  | .star => starNetQ pl ε x sv n
+  | .clique => cliqueQ pl ε x n
+  | .lightStar => lightStarNetQ pl ε x sv n
+
+/-- Does the net get an auxiliary unknown in this variant? -/
+def usesAux (m : Mode) (n : Net) : Bool :=
+  match m with
+  | .b2b => false
+  | .clique => false
+  | _ => decide (2 < n.pins.length)
+
+/-- The documented quadratic of a net list; `sv` = index of the next auxiliary unknown. -/
+def QModel (m : Mode) (pl : List Rat) (ε : Rat) (x : Nat → Rat) : Nat → List Net → Rat
+  | _, [] => 0
+  | sv, n :: ns => netQ m pl ε x sv n + QModel m pl ε x (if usesAux m n then sv + 1 else sv) ns
+
+/-- `Σ_{i<k} (strength_i / max |pl_i − target_i| cutoff) (x_i − target_i)²`. -/
+def penSum (pl : List Rat) (pen : Penalty) (x : Nat → Rat) : Nat → Rat
+  | 0 => 0
+  | k + 1 => penSum pl pen x k
+      + (pen.strength.getD k 0 / rmax (rabs (pl.getD k 0 - pen.target.getD k 0)) pen.cutoff)
+        * sq (x k - pen.target.getD k 0)
+
+/-- **Penalty term** of `solveWithPenalty`: every cell is pulled towards its target with stiffness
+`strength / max(|current distance|, cutoff)`. -/
+def penQ (pl : List Rat) (pen : Option Penalty) (nbCells : Nat) (x : Nat → Rat) : Rat :=
+  match pen with
+  | none => 0
+  | some p => penSum pl p x nbCells
+
+/-- Penalty strengths are non-negative. -/
+def PenaltyOk (pen : Option Penalty) : Prop :=
+  ∀ p, pen = some p → ∀ i, 0 ≤ p.strength.getD i 0
+
+/-! ### `finalize`: the regularisation entries -/
+
+/-- The entries `finalize` adds (newest first): `(i, i, 1e-8f)` for every unknown whose
+non-zero flag is still false. -/
+def regEntries (s : Sys) : List (Nat × Nat × Rat) :=
+  (((List.range s.matSize).filter (fun i => s.nz.getD i true = false)).reverse).map (fun i => (i, i, tiny))
+
 end ColoVerif.NetAsm
